@@ -6,7 +6,8 @@
    assignment, wildcard with relation, headers, container types — are syntax errors of the parser model
    and are exercised by the injection catalogue of the check.) *)
 From Verif Require Import Base.Str Base.Outcome Model.Ast Model.Token Model.Parser Model.Listener
-  Spec.Sem Proofs.ListenerSem Proofs.ListenerFile Proofs.ParserShape Model.Transform.
+  Spec.Sem Proofs.ListenerSem Proofs.ListenerFile Proofs.ParserShape Model.Transform
+  Model.Merge Proofs.ParserTokens Proofs.MergeWf.
 
 (* 1. a relation name that is repeated inside one type (anywhere in the list) raises an error *)
 Theorem C09_duplicate_relation : forall modular ext module_ tyname rs,
@@ -67,3 +68,12 @@ Proof. exact parse_wf. Qed.
 (* 5. two operands with no operator between them never denote a rewrite *)
 Theorem C09_no_operator_no_rewrite : forall a b r, parse_expression (a :: b :: r) ONone = None.
 Proof. reflexivity. Qed.
+
+(* 6. from the text, with no hypothesis left: whenever a DSL document is accepted, the returned model is the
+      denotation of a grammatical parse tree in which nothing is declared twice — every declaration is reflected.
+      (Names are never empty because every token the lexer produces has a non-empty text and the parser's name
+      tokens are tokens of its input: Proofs/ParserTokens.v.) *)
+Theorem C09_accepted_text_is_reflected : forall d m exts modular,
+  dsl_to_model d = DOk m exts modular ->
+  exists f, wf_file f /\ distinct_decls f /\ m = sem_file f /\ ttext (header_tok (f_header f)) <> [].
+Proof. exact accepted_is_sem. Qed.
